@@ -980,6 +980,19 @@ where
     }
 }
 
+#[cfg(feature = "verif-hooks")]
+impl<T, S> HashSet<T, S> {
+    /// Internal bookkeeping, for the external verification harness.
+    pub fn verif_state(&self) -> crate::VerifState {
+        self.map.verif_state()
+    }
+
+    /// Elements still to be moved out of the old table, in the order they will be moved.
+    pub fn verif_old_keys(&self, limit: usize, f: impl FnMut(&T)) {
+        self.map.verif_old_keys(limit, f);
+    }
+}
+
 impl<T, S> PartialEq for HashSet<T, S>
 where
     T: Eq + Hash,
